@@ -51,8 +51,9 @@ Boundaries and secondary paths (third seeded round).  The law is a statement abo
    sinks never shrink along a path.  SIR: final size at the last requested time, at every earlier time the probability of still being
    in the initial state (exp(-total rate (t - t0)): every event changes the state for good), the state space, S never grows, R never
    shrinks, the initial state at t0.  A requested time BEFORE t0 is outside the property (tag, row not judged);
- * raw output: the first step of every run has the one-step law at the initial state (first event e with probability r_e / sum r,
-   waiting time Exp(sum r) in 8 cells, a step is recorded whenever the total rate is positive) - the property's first sentence;
+ * raw output: the first step of every run has the one-step law at the initial state up to the horizon (no event by the horizon
+   with probability exp(-R d), first event e by then with probability r_e / R (1 - exp(-R d)), the waiting time in the part below d of
+   each octile of Exp(R); a step recorded beyond the horizon counts as no event) - the property's first sentence;
  * 30 % of the chain families declare, BEFORE the events that fire, an event whose rate parameter is 0: its occupancy law is unchanged
    and it must never be booked in the returned counts; the clock replay tags steps whose fired event comes after a zero-rate one;
  * horizons of 5 and 12 expected jumps per individual: most paths are absorbed before the horizon (the last event must be kept);
@@ -996,7 +997,7 @@ def rows_at(case, X, T, t0, tags, viol, what, nS):
 
 def cell_class(name, default):
     """the part of the law a failing cell belongs to (goes into the signature)"""
-    if name.startswith("first ") or "recorded step" in name or "no event has a positive rate" in name:
+    if name.startswith("first "):
         return "first-step"
     if name.startswith("runs that book event"):
         return "zero-rate-event-booked"
@@ -1006,36 +1007,43 @@ def cell_class(name, default):
 
 
 def first_step_cells(cells, rates0, J, T, t0, horizon, runs, label):
-    """the property's first sentence at the initial state, on the raw output: the first event is event e with probability
-    r_e / sum r, the first waiting time is Exp(sum r) (8 equiprobable cells); an event with rate zero there is never the first"""
+    """the property's first sentence at the initial state, on the raw output, up to the horizon (a step recorded beyond the horizon
+    counts as "no event by the horizon", so a tree that does not record the overshooting step is judged alike): with R = sum r and
+    d = horizon - t0, P(no event by the horizon) = exp(-R d), P(first event is e, by the horizon) = r_e / R * (1 - exp(-R d)), and
+    the first waiting time falls into the part below d of each octile of Exp(R) with that part's probability; an event with rate
+    zero at the initial state is never the first"""
     R = float(sum(rates0))
-    if not (horizon > t0):
+    d = float(horizon) - float(t0)
+    if not (d > 0):
         return
     nE = len(rates0)
     if R <= 0:
-        cells.add(label + "runs with an event although no event has a positive rate at the initial state", sum(1 for tt in T if len(np.atleast_1d(tt)) > 1), runs, 0.0)
+        cells.add(label + "first step: runs with an event by the horizon although no event has a positive rate at the initial state",
+                  sum(1 for tt in T if len(np.atleast_1d(tt)) > 1 and float(np.atleast_1d(tt)[1]) <= horizon), runs, 0.0)
         return
     first, wait, none = [], [], 0
     for j, tt in zip(J, T):
         tt = np.atleast_1d(np.asarray(tt, float))
         j = np.asarray(j).reshape(-1, nE) if np.asarray(j).size else np.zeros((0, nE))
-        if len(tt) < 2 or len(j) < 1:
+        if len(tt) < 2 or len(j) < 1 or not (tt[1] <= horizon):
             none += 1
             continue
         w = np.flatnonzero(j[0])
         first.append(int(w[0]) if len(w) == 1 and j[0][w[0]] == 1 else -1)
         wait.append(float(tt[1] - tt[0]))
-    # the first step is recorded whether or not it overshoots the horizon (the loop runs while t < horizon)
-    cells.add(label + "runs without any recorded step although the total rate at the initial state is positive", none, runs, 0.0)
+    F = lambda x: -math.expm1(-R * min(max(x, 0.0), d))            # P(first waiting time <= min(x, d))
+    cells.add(label + "first step: runs without an event by the horizon (total rate %r at the initial state, %r to go)" % (R, d), none, runs, math.exp(-R * d))
     first = np.array(first, int)
     cells.add(label + "first step does not book exactly one event", int(np.sum(first < 0)), runs, 0.0)
     for e in range(nE):
-        cells.add(label + "first event is event %d (rate %r of total %r at the initial state)" % (e, float(rates0[e]), R), int(np.sum(first == e)), runs, float(rates0[e]) / R)
-    edges = [-math.log1p(-k / 8.0) / R for k in range(1, 8)]
-    cnt = np.bincount(np.searchsorted(edges, np.array(wait, float), side="right"), minlength=8)
+        cells.add(label + "first event (by the horizon) is event %d (rate %r of total %r at the initial state)" % (e, float(rates0[e]), R),
+                  int(np.sum(first == e)), runs, float(rates0[e]) / R * F(d))
+    edges = [0.0] + [-math.log1p(-k / 8.0) / R for k in range(1, 8)] + [float("inf")]
+    wt = np.array(wait, float)
+    cnt = np.bincount(np.searchsorted(edges[1:-1], wt, side="right"), minlength=8)
     for k in range(8):
-        cells.add(label + "first waiting time in octile %d of Exp(total rate %r)" % (k, R), cnt[k], runs, 1.0 / 8.0)
-    cells.add(label + "first waiting time <= 0", int(np.sum(np.array(wait, float) <= 0)), runs, 0.0)
+        cells.add(label + "first waiting time (by the horizon) in octile %d of Exp(total rate %r)" % (k, R), cnt[k], runs, max(0.0, F(edges[k + 1]) - F(edges[k])))
+    cells.add(label + "first waiting time <= 0", int(np.sum(wt <= 0)), runs, 0.0)
 
 
 def run_chain(case):
